@@ -16,6 +16,21 @@
 //!   clean shutdown of the crash-free execution).
 //! Oracle: a ModelKv of the acknowledged operations; the operation in flight at the crash
 //! may be applied wholly or not at all.
+//!
+//! Identifier domain: per case a pool of 5 ids (knob `ids`) drawn from three classes — small
+//! (1..9), two hex digits (10..255, most of them with a digit a–f) and large (0xabcdef,
+//! 2^32+x, 2^63+x, u64::MAX−k, …); one case in four keeps the old pool 1..5.  Entities are
+//! still referred to by rank in the pool, so events survive shrinking.
+//!
+//! Volume: a `bulk` event (a minority of the cases, half of the real-kill ones) is a batch
+//! load executed as ONE step of the history: `count` node creations (+ `edges` relationship
+//! creations) through the same persist_* calls, either many small entities (100..300) or a
+//! few with a 2–3 KiB string property, i.e. 10–30 KiB of log appended without a flush.  The
+//! H4 points inside the batch are not crash positions (the batch is acknowledged as a whole
+//! when its last creation returned; a crash inside it would leave a prefix, which the
+//! in-flight rule "wholly or not at all" does not describe) — the crash positions after it
+//! are what it is for: a kill there happens with the log's user-space buffer spilled several
+//! times and the rest of the log still in process memory.
 
 use crate::kit::core::*;
 use crate::kit::forkproc::{self, End, Report};
@@ -27,7 +42,7 @@ use samyama::persistence::{PersistenceManager, ResourceQuotas};
 use serde_json::{json, Map, Value};
 use std::collections::{BTreeMap, BTreeSet};
 use std::path::Path;
-use std::sync::atomic::{AtomicU64, Ordering};
+use std::sync::atomic::{AtomicBool, AtomicU64, Ordering};
 use std::sync::Arc;
 
 pub struct C16;
@@ -36,6 +51,9 @@ const LABELS: [&str; 3] = ["A", "B", "C"];
 const TYPES: [&str; 2] = ["T", "U"];
 const KEYS: [&str; 3] = ["k", "m", "z"];
 const MAX_ID: u64 = 5;
+/// first id used by a `bulk` event (ids BULK_BASE.., skipping live ones)
+const BULK_BASE: u64 = 0x100;
+const BULK_MAX: u64 = 400;
 const TENANTS: [&str; 2] = ["default", "t1"];
 
 #[derive(Clone, Default)]
@@ -69,6 +87,8 @@ enum Op {
     UpdateEdge { id: u64, full: Map<String, Value>, version: u64 },
     DeleteNode { id: u64 },
     DeleteEdge { id: u64 },
+    /// batch load: the creations, in order (each a CreateNode / CreateEdge)
+    Bulk { creates: Vec<Op> },
     Flush,
     Checkpoint,
     Restart,
@@ -83,6 +103,7 @@ impl Op {
             Op::UpdateEdge { .. } => "update_edge",
             Op::DeleteNode { .. } => "delete_node",
             Op::DeleteEdge { .. } => "delete_edge",
+            Op::Bulk { .. } => "bulk",
             Op::Flush => "flush",
             Op::Checkpoint => "checkpoint",
             Op::Restart => "restart",
@@ -97,17 +118,17 @@ fn obj(v: &Value) -> Map<String, Value> {
 /// Turn a generated event into a concrete operation against the current model state.
 /// Entities are referred to by rank modulo what exists, so events stay meaningful when
 /// others are deleted by the shrinker.
-fn resolve(ev: &Value, m: &Model) -> Option<(Op, String)> {
+fn resolve(ev: &Value, m: &Model, pool: &[u64]) -> Option<(Op, String)> {
     match op(ev) {
         "create_node" => {
-            let free: Vec<u64> = (1..=MAX_ID).filter(|i| !m.nodes.contains_key(i)).collect();
+            let free: Vec<u64> = pool.iter().cloned().filter(|i| !m.nodes.contains_key(i)).collect();
             let id = pick(&free, u(ev, "id"))?;
             let labels: Vec<String> = ev["labels"].as_array().map(|a| a.iter().map(|x| LABELS[(x.as_u64().unwrap_or(0) % 3) as usize].to_string()).collect()).unwrap_or_default();
             let reused = if m.dead_nodes.contains(&id) { "r" } else { "" };
             Some((Op::CreateNode { id, labels, props: obj(&ev["props"]) }, format!("{reused}")))
         }
         "create_edge" => {
-            let free: Vec<u64> = (1..=MAX_ID).filter(|i| !m.edges.contains_key(i)).collect();
+            let free: Vec<u64> = pool.iter().cloned().filter(|i| !m.edges.contains_key(i)).collect();
             let id = pick(&free, u(ev, "id"))?;
             let live: Vec<u64> = m.nodes.keys().cloned().collect();
             let src = pick(&live, u(ev, "s"))?;
@@ -145,6 +166,45 @@ fn resolve(ev: &Value, m: &Model) -> Option<(Op, String)> {
             let live: Vec<u64> = m.edges.keys().cloned().collect();
             let id = pick(&live, u(ev, "e"))?;
             Some((Op::DeleteEdge { id }, format!("{}", live.iter().position(|y| *y == id).unwrap_or(0))))
+        }
+        "bulk" => {
+            // `count` nodes with the first free ids from BULK_BASE on, each with an integer
+            // property and (len > 0) a string of `len` characters that differs per node;
+            // then `edges` relationships chaining them
+            let count = u(ev, "count").clamp(1, BULK_MAX);
+            let len = u(ev, "len").min(4000) as usize;
+            let n_edges = u(ev, "edges").min(count.saturating_sub(1));
+            let ch = u(ev, "ch");
+            let mut creates = Vec::new();
+            let mut ids = Vec::new();
+            let mut id = BULK_BASE;
+            while (ids.len() as u64) < count {
+                if !m.nodes.contains_key(&id) {
+                    ids.push(id);
+                }
+                id += 1;
+            }
+            for (i, id) in ids.iter().enumerate() {
+                let mut props = Map::new();
+                props.insert("k".into(), json!({"i": i as u64}));
+                if len > 0 {
+                    let c = (b'a' + ((ch + i as u64) % 26) as u8) as char;
+                    props.insert("z".into(), json!({"s": format!("{i}:{}", c.to_string().repeat(len))}));
+                }
+                creates.push(Op::CreateNode { id: *id, labels: vec![LABELS[i % 3].to_string()], props });
+            }
+            let mut eid = BULK_BASE;
+            for j in 0..n_edges as usize {
+                while m.edges.contains_key(&eid) {
+                    eid += 1;
+                }
+                let mut props = Map::new();
+                props.insert("m".into(), json!({"i": j as u64}));
+                creates.push(Op::CreateEdge { id: eid, src: ids[j], dst: ids[j + 1], ty: TYPES[j % 2].to_string(), props });
+                eid += 1;
+            }
+            let shape = if len >= 1024 { "big" } else { "small" };
+            Some((Op::Bulk { creates }, format!("{shape}{}", if n_edges > 0 { "+e" } else { "" })))
         }
         "flush" => Some((Op::Flush, String::new())),
         "checkpoint" => Some((Op::Checkpoint, String::new())),
@@ -195,6 +255,11 @@ fn apply(o: &Op, m: &mut Model) {
             m.edge_versions.remove(id);
             m.dead_edges.insert(*id);
         }
+        Op::Bulk { creates } => {
+            for c in creates {
+                apply(c, m);
+            }
+        }
         Op::Flush | Op::Checkpoint | Op::Restart => {}
     }
 }
@@ -219,6 +284,12 @@ fn exec(o: &Op, pm: &PersistenceManager, tenant: &str) -> Result<(), String> {
         }
         Op::DeleteNode { id } => pm.persist_delete_node(tenant, *id),
         Op::DeleteEdge { id } => pm.persist_delete_edge(tenant, *id),
+        Op::Bulk { creates } => {
+            for c in creates {
+                exec(c, pm, tenant)?;
+            }
+            return Ok(());
+        }
         Op::Flush => pm.flush(),
         Op::Checkpoint => pm.checkpoint(),
         Op::Restart => Ok(()),
@@ -296,6 +367,52 @@ fn diffs(want: &Model, hist: &[&Model], got_n: &BTreeMap<u64, Vec<CNode>>, got_e
     out
 }
 
+/// The ids of this case (knob `ids`; cases recorded before the knob existed: 1..5).
+fn id_pool(case: &Case) -> Vec<u64> {
+    let mut v: Vec<u64> = case.knobs.get("ids").and_then(|x| x.as_array()).map(|a| a.iter().filter_map(|x| x.as_u64()).collect()).unwrap_or_default();
+    v.sort();
+    v.dedup();
+    if v.is_empty() {
+        v = (1..=MAX_ID).collect();
+    }
+    v
+}
+
+fn has_hex_letter(id: u64) -> bool {
+    format!("{id:x}").bytes().any(|b| b.is_ascii_alphabetic())
+}
+
+/// What the newest file of the samyama log looks like on disk (read by the harness with a
+/// reader of its own, before the directory is reopened): `Some(true)` = it ends inside a
+/// record (a length prefix whose body is not, or not completely, in the file),
+/// `Some(false)` = it holds only whole records (at least one), `None` = no or empty file.
+fn wal_tail_torn(dir: &Path) -> Option<bool> {
+    let mut newest: Option<(u64, std::path::PathBuf)> = None;
+    for e in std::fs::read_dir(dir.join("wal")).ok()?.flatten() {
+        let name = e.file_name().to_string_lossy().to_string();
+        let Some(seq) = name.strip_prefix("wal-").and_then(|x| x.strip_suffix(".log")).and_then(|x| u64::from_str_radix(x, 16).ok()) else { continue };
+        if newest.as_ref().map(|n| seq >= n.0).unwrap_or(true) {
+            newest = Some((seq, e.path()));
+        }
+    }
+    let bytes = std::fs::read(newest?.1).ok()?;
+    if bytes.is_empty() {
+        return None;
+    }
+    let mut pos = 0usize;
+    while pos < bytes.len() {
+        if pos + 4 > bytes.len() {
+            return Some(true);
+        }
+        let len = u32::from_le_bytes([bytes[pos], bytes[pos + 1], bytes[pos + 2], bytes[pos + 3]]) as usize;
+        if pos + 4 + len > bytes.len() {
+            return Some(true);
+        }
+        pos += 4 + len;
+    }
+    Some(false)
+}
+
 #[derive(Clone, Copy, Debug, PartialEq)]
 enum Crash {
     None,
@@ -331,10 +448,15 @@ struct KillAt {
     rep: Report,
     seen: AtomicU64,
     at: Option<u64>,
+    /// inside a `bulk` step: points are neither counted nor crash positions
+    paused: AtomicBool,
 }
 
 impl samyama::verif::PointHandler for KillAt {
     fn at(&self, name: &str) {
+        if self.paused.load(Ordering::SeqCst) {
+            return;
+        }
         let i = self.seen.fetch_add(1, Ordering::SeqCst);
         if self.at == Some(i) {
             self.rep.line(&format!("kill {name}"));
@@ -350,8 +472,9 @@ impl samyama::verif::PointHandler for KillAt {
 /// `end`.  An `ack` is written after the operation returned Ok and before anything else
 /// happens, so the set of `ack` records is exactly the set of acknowledged operations.
 fn child_process(case: &Case, crash: Crash, dir: &Path, tenant: &str, rep: Report) -> ! {
-    let h = Arc::new(KillAt { rep, seen: AtomicU64::new(0), at: if let Crash::AtPoint(k) = crash { Some(k) } else { None } });
-    samyama::verif::set_point_handler(Some(h as Arc<dyn samyama::verif::PointHandler>));
+    let h = Arc::new(KillAt { rep, seen: AtomicU64::new(0), at: if let Crash::AtPoint(k) = crash { Some(k) } else { None }, paused: AtomicBool::new(false) });
+    samyama::verif::set_point_handler(Some(h.clone() as Arc<dyn samyama::verif::PointHandler>));
+    let pool = id_pool(case);
     let mut pm = match open(dir, tenant) {
         Ok(p) => p,
         Err(e) => {
@@ -363,7 +486,7 @@ fn child_process(case: &Case, crash: Crash, dir: &Path, tenant: &str, rep: Repor
     let mut m = Model::default();
     let mut ops_done = 0u64;
     for (step, ev) in case.events.iter().enumerate() {
-        let Some((o, _)) = resolve(ev, &m) else { continue };
+        let Some((o, _)) = resolve(ev, &m, &pool) else { continue };
         if let Op::Restart = o {
             drop(pm); // clean shutdown inside the child
             pm = match open(dir, tenant) {
@@ -377,7 +500,10 @@ fn child_process(case: &Case, crash: Crash, dir: &Path, tenant: &str, rep: Repor
             continue;
         }
         rep.line(&format!("begin {step}"));
-        match std::panic::catch_unwind(std::panic::AssertUnwindSafe(|| exec(&o, &pm, tenant))) {
+        h.paused.store(matches!(o, Op::Bulk { .. }), Ordering::SeqCst);
+        let res = std::panic::catch_unwind(std::panic::AssertUnwindSafe(|| exec(&o, &pm, tenant)));
+        h.paused.store(false, Ordering::SeqCst);
+        match res {
             Ok(Ok(())) => {
                 apply(&o, &mut m);
                 ops_done += 1;
@@ -499,6 +625,16 @@ struct Runner<'a> {
 impl<'a> Runner<'a> {
     fn fail(&mut self, sig: String, detail: String, step: usize) {
         if self.sub.violations.len() < 6 {
+            // batch-loaded entities carry KiB-sized strings: keep the report readable
+            let detail = if detail.len() > 900 {
+                let mut cut = 900;
+                while !detail.is_char_boundary(cut) {
+                    cut -= 1;
+                }
+                format!("{} … [{} bytes]", &detail[..cut], detail.len())
+            } else {
+                detail
+            };
             self.sub.violations.push(Violation::new(sig, detail, step).with_pin(self.crash.pin(self.kill)));
         }
     }
@@ -509,10 +645,20 @@ impl<'a> Runner<'a> {
         // state class of the signature: what preceded this recovery
         let after = if how.starts_with("real kill") { "/after_real_kill" } else { "" };
         self.pm = None; // releases RocksDB's LOCK
+        // what the dead / closed process left of its log, seen by the harness' own reader
+        let mut log_state = "";
+        match wal_tail_torn(self.dir) {
+            Some(true) => {
+                log_state = " (the newest log file ends inside a record)";
+                self.sub.probes.push(if after.is_empty() { "reopen_with_log_ending_inside_record" } else { "reopen_after_real_kill_with_log_ending_inside_record" });
+            }
+            Some(false) if !after.is_empty() => self.sub.probes.push("reopen_after_real_kill_with_log_partly_on_disk"),
+            _ => {}
+        }
         match open(self.dir, self.tenant) {
             Ok(pm) => self.pm = Some(pm),
             Err(e) => {
-                self.fail("C16/reopen/error".into(), format!("{how}: reopen failed: {e}"), step);
+                self.fail(format!("C16/reopen/error{after}"), format!("{how}: reopening the persistence directory failed{log_state}: {e}"), step);
                 return None;
             }
         }
@@ -527,6 +673,20 @@ impl<'a> Runner<'a> {
         };
         let gn = index_nodes(&nodes);
         let ge = index_edges(&edges);
+        // which part of the id / size domain this comparison covers (the acknowledged state
+        // recover is held against; counted whether or not the comparison succeeds)
+        if let Some(c) = candidates.last() {
+            let ids = || c.nodes.keys().chain(c.edges.keys());
+            if ids().any(|id| has_hex_letter(*id)) {
+                self.sub.probes.push("recovered_entity_with_hex_letter_id");
+            }
+            if ids().any(|id| *id > u32::MAX as u64) {
+                self.sub.probes.push("recovered_entity_with_id_above_u32");
+            }
+            if c.nodes.len() + c.edges.len() >= 100 {
+                self.sub.probes.push("recovered_100_or_more_entities");
+            }
+        }
         let mut best: Option<((usize, usize), Vec<(String, String)>)> = None;
         for (i, c) in candidates.iter().enumerate() {
             let d = diffs(c, candidates, &gn, &ge);
@@ -603,6 +763,7 @@ fn run_history(case: &Case, crash: Crash, kill: bool, dir: &Path) -> Sub {
         ctl.set_crash(Some(k));
     }
     let mut m = Model::default();
+    let pool = id_pool(case);
     let mut crashed = false;
     // operations acknowledged since the storage was last flushed / closed cleanly
     let mut unflushed = 0u64;
@@ -617,7 +778,7 @@ fn run_history(case: &Case, crash: Crash, kill: bool, dir: &Path) -> Sub {
         }
     }
     'hist: for (step, ev) in case.events.iter().enumerate() {
-        let Some((o, resolved)) = resolve(ev, &m) else { continue };
+        let Some((o, resolved)) = resolve(ev, &m, &pool) else { continue };
         // while the child's part of the history lasts, its report stands for the execution
         let in_child = kill && !crashed;
         r.sub.sig_parts.push(format!("{}{}", o.kind(), resolved));
@@ -640,6 +801,10 @@ fn run_history(case: &Case, crash: Crash, kill: bool, dir: &Path) -> Sub {
             if m.dead_nodes.contains(id) {
                 r.sub.probes.push("node_id_reused_after_delete");
             }
+        }
+        if let Op::Bulk { creates } = &o {
+            r.sub.probes.push("bulk_load");
+            r.sub.probes.push(if creates.len() >= 100 { "bulk_load_many_small_entities" } else { "bulk_load_few_large_entities" });
         }
         let before = m.clone();
         let mut after = m.clone();
@@ -664,9 +829,17 @@ fn run_history(case: &Case, crash: Crash, kill: bool, dir: &Path) -> Sub {
             }
         } else {
             let pm = r.pm.as_ref().unwrap();
-            match points::run_process(|| exec(&o, pm, &tenant_s)) {
-                Ok(x) => Done::Ret(x),
-                Err(()) => Done::Died(ctl.crashed_at().unwrap_or_default()),
+            if let Op::Bulk { .. } = o {
+                // the points inside a batch load are not crash positions: not even counted
+                PointCtl::uninstall();
+                let x = exec(&o, pm, &tenant_s);
+                ctl.install();
+                Done::Ret(x)
+            } else {
+                match points::run_process(|| exec(&o, pm, &tenant_s)) {
+                    Ok(x) => Done::Ret(x),
+                    Err(()) => Done::Died(ctl.crashed_at().unwrap_or_default()),
+                }
             }
         };
         if ctl.hit_count() > hits_before {
@@ -770,6 +943,34 @@ fn run_history(case: &Case, crash: Crash, kill: bool, dir: &Path) -> Sub {
     r.sub
 }
 
+/// The id pool of a case: 5 distinct ids.  One case in four keeps the old domain 1..5;
+/// otherwise each id is small (1..9), a two-hex-digit number (10..255) or a large one
+/// around the places where a width / radix / signedness mistake would show.
+fn gen_id_pool(k: &mut Rng) -> Vec<u64> {
+    if k.chance(1, 4) {
+        return (1..=MAX_ID).collect();
+    }
+    let mut ids: BTreeSet<u64> = BTreeSet::new();
+    while ids.len() < 5 {
+        let id = match k.weighted(&[3, 4, 3]) {
+            0 => k.range(1, 9) as u64,
+            1 => k.range(10, 255) as u64,
+            _ => match k.below(8) {
+                0 => 0xabcdef,
+                1 => 0xdead_beef_u64 + k.below(16),
+                2 => (1u64 << 32) + k.below(4096),
+                3 => u32::MAX as u64 - k.below(3),
+                4 => (1u64 << 63) + k.below(256),
+                5 => i64::MAX as u64 - k.below(3),
+                6 => u64::MAX - k.below(4),
+                _ => ((k.range(1, 0xffff) as u64) << 40) | k.below(1 << 20),
+            },
+        };
+        ids.insert(id);
+    }
+    ids.into_iter().collect()
+}
+
 fn gen_props(r: &mut Rng, boundary: bool, max: usize) -> Map<String, Value> {
     let mut props = Map::new();
     for k in KEYS.iter().take(max) {
@@ -798,7 +999,7 @@ impl Scenario for C16 {
         }
     }
     fn rule(&self) -> &'static str {
-        "history = PRNG-generated sequence (1..8 ops, ids 1..5, 3 labels, 2 types, 3 keys) of persist_create_node/edge, persist_delete_*, persist_update_*_properties (always the full property map, so merge and replace readings agree), flush, checkpoint and clean restart for one tenant; executed once crash-free and then once per crash position: every H4 point passed (process crash inside the operation) and every boundary between operations; each sub-execution = crash, reopen, recover(tenant), compare with the model (in-flight op applied wholly or not at all), optionally continue the history on the restarted manager and compare again at the end. The crash is, per case (knob real_kill, 1 in 3), either an unwind at the position + drop of the manager, or a REAL kill: the process up to the crash position runs in a fork()ed child that _exits there with the manager open (nothing closed or flushed) and reports its acknowledged operations through a pipe; the real-kill kind also has the position 'after the last operation'. Non-trivial = at least one operation with H4 points ran and at least one crash fired inside an operation. Distinct = hash of the sequence of (op kind, resolved entity ranks)."
+        "history = PRNG-generated sequence (1..8 ops, 3 labels, 2 types, 3 keys; ids from a per-case pool of 5 drawn from small 1..9 / two hex digits 10..255 / large such as 0xabcdef, 2^32+x, 2^63+x, u64::MAX-k, one case in four the pool 1..5) of persist_create_node/edge, persist_delete_*, persist_update_*_properties (always the full property map, so merge and replace readings agree), flush, checkpoint and clean restart for one tenant; executed once crash-free and then once per crash position: every H4 point passed (process crash inside the operation) and every boundary between operations; each sub-execution = crash, reopen, recover(tenant), compare with the model (in-flight op applied wholly or not at all), optionally continue the history on the restarted manager and compare again at the end. The crash is, per case (knob real_kill, 1 in 4), either an unwind at the position + drop of the manager, or a REAL kill: the process up to the crash position runs in a fork()ed child that _exits there with the manager open (nothing closed or flushed) and reports its acknowledged operations through a pipe; the real-kill kind also has the position 'after the last operation'. A minority of the cases (half of the real-kill ones, one in eight of the others) contain a `bulk` step: a batch load of 100..300 small nodes or 6..10 nodes with a 2-3 KiB string (plus relationships chaining them) through the same persist_* calls, acknowledged as a whole, not crashed inside (its H4 points are not positions), so that the crash positions behind it are reached with 10-30 KiB of log appended since the last flush; before every reopen the harness reads the newest log file itself and records whether it ends inside a record. Non-trivial = at least one operation with H4 points ran and at least one crash fired inside an operation. Distinct = hash of the sequence of (op kind, resolved entity ranks)."
     }
     fn real_components(&self) -> Vec<&'static str> {
         vec![
@@ -811,8 +1012,8 @@ impl Scenario for C16 {
     }
     fn stub_components(&self) -> Vec<&'static str> {
         vec![
-            "unwind kind of crash (two cases in three): process kill = unwind at an H4 point + drop of the PersistenceManager (RocksDB and the WAL close cleanly, memtables are flushed); it exercises atomicity of the in-flight operation but only ASSUMES that a completed put/delete survives a kill",
-            "real-kill kind (one case in three): the kill is real (_exit of a fork()ed child with the manager open), the machine is not: power loss / loss of the page cache is not modelled for RocksDB-backed state",
+            "unwind kind of crash (three cases in four): process kill = unwind at an H4 point + drop of the PersistenceManager (RocksDB and the WAL close cleanly, memtables are flushed); it exercises atomicity of the in-flight operation but only ASSUMES that a completed put/delete survives a kill",
+            "real-kill kind (one case in four): the kill is real (_exit of a fork()ed child with the manager open), the machine is not: power loss / loss of the page cache is not modelled for RocksDB-backed state",
         ]
     }
     fn assumptions(&self) -> Vec<&'static str> {
@@ -847,6 +1048,12 @@ impl Scenario for C16 {
             "real_kill_between_operations",
             "real_kill_after_last_operation",
             "real_kill_with_unflushed_acknowledged_writes",
+            "recovered_entity_with_hex_letter_id",
+            "recovered_entity_with_id_above_u32",
+            "recovered_100_or_more_entities",
+            "bulk_load_many_small_entities",
+            "bulk_load_few_large_entities",
+            "reopen_after_real_kill_with_log_ending_inside_record",
         ]
     }
     fn generate(&self, s: &mut Streams, _run_index: u64, _tier: Tier) -> Case {
@@ -857,7 +1064,25 @@ impl Scenario for C16 {
         case.knobs.insert("tenant".into(), json!(s.knobs.below(2)));
         case.knobs.insert("continue_after_crash".into(), json!(s.knobs.chance(1, 4)));
         case.knobs.insert("boundary_values".into(), json!(boundary));
-        case.knobs.insert("real_kill".into(), json!(s.knobs.chance(1, 4)));
+        let real_kill = s.knobs.chance(1, 4);
+        case.knobs.insert("real_kill".into(), json!(real_kill));
+        // (drawn after the older knobs, from the knob stream: the rest of a case is what it was)
+        case.knobs.insert("ids".into(), json!(gen_id_pool(&mut s.knobs)));
+        let bulk: Option<(usize, Value)> = if s.knobs.chance(1, if real_kill { 2 } else { 8 }) {
+            let k = &mut s.knobs;
+            let ev = if k.chance(1, 2) {
+                let count = k.range(100, 300);
+                json!({"op":"bulk","count":count,"len":k.below(3) * 20,"edges":if k.chance(1, 2) { k.range(1, 60) } else { 0 },"ch":k.below(26)})
+            } else {
+                let count = k.range(6, 10);
+                json!({"op":"bulk","count":count,"len":k.range(2000, 3000),"edges":k.below(4),"ch":k.below(26)})
+            };
+            // mostly early in the history, so that most crash positions lie behind it
+            let pos = if k.chance(2, 3) { k.below(2) } else { k.below(8) };
+            Some((pos as usize, ev))
+        } else {
+            None
+        };
         let r = &mut s.workload;
         // a node first, so that updates and relationships are possible early
         if r.chance(3, 4) {
@@ -897,6 +1122,10 @@ impl Scenario for C16 {
             };
             case.events.push(ev);
         }
+        if let Some((pos, ev)) = bulk {
+            let at = pos.min(case.events.len());
+            case.events.insert(at, ev);
+        }
         case
     }
     fn shrink_event(&self, ev: &Value) -> Vec<Value> {
@@ -914,6 +1143,27 @@ impl Scenario for C16 {
                 out.push(e);
             }
             "checkpoint" | "restart" => out.push(json!({"op":"flush"})),
+            "bulk" => {
+                let count = u(ev, "count");
+                if u(ev, "edges") > 0 {
+                    let mut e = ev.clone();
+                    e["edges"] = json!(0);
+                    out.push(e);
+                }
+                for c in [1, count / 2, count.saturating_sub(1)] {
+                    if c >= 1 && c < count {
+                        let mut e = ev.clone();
+                        e["count"] = json!(c);
+                        e["edges"] = json!(u(ev, "edges").min(c - 1));
+                        out.push(e);
+                    }
+                }
+                if u(ev, "len") > 0 {
+                    let mut e = ev.clone();
+                    e["len"] = json!(0);
+                    out.push(e);
+                }
+            }
             _ => {}
         }
         out
@@ -959,7 +1209,7 @@ impl Scenario for C16 {
         let dry = run_history(case, Crash::None, false, &rd.sub("dry"));
         rd.remove_sub("dry");
         for part in &dry.sig_parts {
-            for kind in ["delete_node", "delete_edge", "update_node", "update_edge", "create_edge", "checkpoint", "flush"] {
+            for kind in ["delete_node", "delete_edge", "update_node", "update_edge", "create_edge", "checkpoint", "flush", "bulk"] {
                 if part.starts_with(kind) {
                     o.probe(&format!("op_{kind}"));
                 }
